@@ -53,6 +53,7 @@ type Program struct {
 
 	mu       sync.Mutex
 	fnName   sync.Map // *ssa.Function -> string
+	harnessFn sync.Map // *ssa.Function -> bool (defined in a harness overlay file)
 	extCache sync.Map // *ssa.Function -> externalFn (or nil marker)
 	built    sync.Map // *ssa.Package -> bool
 }
@@ -332,7 +333,11 @@ func visitInstr(fr *frame, instr ssa.Instruction) continuation {
 		chanSend(fr, fr.get(instr.Chan).(*schan), fr.get(instr.X))
 
 	case *ssa.Store:
-		store(mustDeref(instr.Addr.Type()), fr.derefCheck(fr.get(instr.Addr).(*value)), fr.get(instr.Val))
+		addr := fr.derefCheck(fr.get(instr.Addr).(*value))
+		if i.st.race != nil {
+			i.st.raceCells(fr, mustDeref(instr.Addr.Type()), addr, true, instr.Pos())
+		}
+		store(mustDeref(instr.Addr.Type()), addr, fr.get(instr.Val))
 
 	case *ssa.If:
 		succ := 1
@@ -403,6 +408,11 @@ func visitInstr(fr *frame, instr ssa.Instruction) continuation {
 		fr.env[instr] = makeMap(instr.Type().Underlying().(*types.Map).Key(), 0)
 
 	case *ssa.Range:
+		if i.st.race != nil {
+			if m, ok := fr.get(instr.X).(*smap); ok && m != nil {
+				i.st.raceAccessCell(fr, m, false, instr.Pos())
+			}
+		}
 		fr.env[instr] = rangeIter(fr, fr.get(instr.X), instr.X.Type())
 
 	case *ssa.Next:
@@ -446,12 +456,20 @@ func visitInstr(fr *frame, instr ssa.Instruction) continuation {
 		}
 
 	case *ssa.Lookup:
+		if i.st.race != nil {
+			if m, ok := fr.get(instr.X).(*smap); ok && m != nil {
+				i.st.raceAccessCell(fr, m, false, instr.Pos())
+			}
+		}
 		fr.env[instr] = lookup(fr, instr, fr.get(instr.X), fr.get(instr.Index))
 
 	case *ssa.MapUpdate:
 		m := fr.get(instr.Map).(*smap)
 		if m == nil {
 			i.rtPanic("assignment to entry in nil map")
+		}
+		if i.st.race != nil {
+			i.st.raceAccessCell(fr, m, true, instr.Pos())
 		}
 		m.insert(fr, fr.get(instr.Key), fr.get(instr.Value))
 
@@ -549,6 +567,17 @@ func callSSA(i *interpreter, caller *frame, callpos token.Pos, fn *ssa.Function,
 		fr.g = i.st.cur
 	}
 	if ext := i.P.external(fn); ext != nil {
+		if i.st.race != nil && len(args) > 0 {
+			if n := i.P.name(fn); strings.HasPrefix(n, "sync/atomic.") || strings.HasPrefix(n, "(*sync/atomic.") || strings.HasPrefix(n, "(*sync.Map).") {
+				// atomics and sync.Map synchronise on their address
+				if p, ok := args[0].(*value); ok && p != nil {
+					i.st.raceAcquire(fr.g, p)
+					r := ext(fr, args)
+					i.st.raceRelease(fr.g, p)
+					return r
+				}
+			}
+		}
 		return ext(fr, args)
 	}
 	if fn.Blocks == nil {
